@@ -63,6 +63,9 @@ def run(ctx) -> None:
   ctx.rule('R8', 'every given trial is completed: completing loops range over the whole argument, not a filtered sub-list', 8)
   ctx.rule('R10', 'evaluate() keeps nothing on the experimenter between calls (no memo of measurements / results on self)', 15)
   ctx.rule('R11', 'NumpyExperimenter calls the wrapped function with one feature row at a time', 1)
+  ctx.rule('R14', 'a wrapper around one experimenter hands it the caller\'s own trial objects (what the base records on them - '
+           'measurement, infeasibility - is what the caller sees)', 5)
+  ctx.rule('R13', 'a value that comes out of a memoised function (lru_cache / cache) is never modified in place by its callers', 0)
   ctx.rule('R12', 'mirrored bounds / ranges are swapped through temporaries or a tuple assignment (no `a = f(b); b = f(a)`)', 1)
   ctx.rule('R9', 'feature rows are built by parameter name, never from the iteration order of a trial\'s parameter dict', 1)
   ctx.import_rules('C14', {'R1'}, 'R7', 'seeded noise/permutation wrappers use no ambient entropy (process hash seed, clock, global RNG)')
@@ -80,6 +83,8 @@ def run(ctx) -> None:
   r10_stateless_evaluate(ctx, subs)
   r11_row_at_a_time(ctx)
   r12_no_broken_swap(ctx, subs)
+  r13_cached_values_not_mutated(ctx)
+  r14_delegation_by_reference(ctx, subs)
 
 
 # ----------------------------------------------------------------------- R1
@@ -381,6 +386,78 @@ def r11_row_at_a_time(ctx) -> None:
             f'`{unparse(bad, 50) if bad is not None else ""}` hands the whole feature matrix to a function documented for one point: a function that happens '
             'to accept a matrix (indexing x[i] picks rows instead of coordinates) returns values that mix the coordinates of different trials',
             construct='impl-on-batch', func=ci.qualname)
+
+
+def r14_delegation_by_reference(ctx, subs: List[ClassInfo]) -> None:
+  n = 0
+  for ci in subs:
+    ev = ci.methods.get('evaluate')
+    if ev is None or len(ev.params) < 2:
+      continue
+    par = ev.params[1]
+    for c in flow.calls_in(ev.node):
+      if not (isinstance(c.func, ast.Attribute) and c.func.attr == 'evaluate' and (dotted(c.func.value) or '') in ('self._exptr', 'self._experimenter')
+              and c.args):
+        continue
+      n += 1
+      a = flow.resolve_local(ev.node, c.args[0])
+      same = isinstance(a, ast.Name) and a.id == par
+      if not same:
+        # copies are fine when the whole outcome is handed back: complete(<copy>.final_measurement,
+        # infeasibility_reason=<copy>.infeasibility_reason)
+        same = any(isinstance(cc.func, ast.Attribute) and cc.func.attr == 'complete' and any(
+            k.arg == 'infeasibility_reason' and isinstance(k.value, ast.Attribute) and k.value.attr == 'infeasibility_reason'
+            for k in cc.keywords) and cc.args and isinstance(cc.args[0], ast.Attribute) and cc.args[0].attr == 'final_measurement'
+                   for cc in flow.calls_in(ev.node))
+      ctx.check(same, 'R14', f'{ci.name}.evaluate delegates with the given trials', c, f'inner evaluate({par})',
+                f'the wrapped experimenter is given `{unparse(a, 50)}` instead of the caller\'s trials: whatever it records on its copies '
+                '(an infeasible completion in particular) has to be copied back field by field, and what is not copied is lost - '
+                'an infeasible evaluation comes back as an ordinary completed trial', construct=f'{ci.name}:delegates-copies', func=ev.qualname)
+  if n < 5:
+    raise AnalysisError(f'only {n} single-experimenter wrappers delegating evaluate() found')
+
+
+def r13_cached_values_not_mutated(ctx) -> None:
+  n = 0
+  for f in ctx.src.py_files():
+    if not f.startswith(DIR):
+      continue
+    mi = ctx.index.module_of_file(f)
+    cached = set()
+    fns = list(mi.functions.values()) + [m for c in mi.classes.values() for m in c.methods.values()]
+    for fi in fns:
+      for d in getattr(fi.node, 'decorator_list', []):
+        t = unparse(d, 0)
+        if 'lru_cache' in t or t in ('functools.cache', 'cache') or 'memoize' in t.lower():
+          cached.add(fi.name)
+    if not cached:
+      continue
+    for fi in fns:
+      bound = {}
+      for x in ast.walk(fi.node):
+        if isinstance(x, ast.Assign) and len(x.targets) == 1 and isinstance(x.targets[0], ast.Name) and isinstance(x.value, ast.Call):
+          callee = (dotted(x.value.func) or '').rsplit('.', 1)[-1]
+          if callee in cached:
+            bound[x.targets[0].id] = callee
+      if not bound:
+        continue
+      n += 1
+      mut = None
+      for x in ast.walk(fi.node):
+        if isinstance(x, ast.AugAssign) and isinstance(x.target, ast.Name) and x.target.id in bound:
+          mut = mut or x
+        if isinstance(x, (ast.Assign, ast.AugAssign)):
+          for t in (x.targets if isinstance(x, ast.Assign) else [x.target]):
+            if isinstance(t, ast.Subscript) and isinstance(t.value, ast.Name) and t.value.id in bound:
+              mut = mut or x
+        if isinstance(x, ast.Call) and isinstance(x.func, ast.Attribute) and isinstance(x.func.value, ast.Name) and x.func.value.id in bound \
+            and x.func.attr in ('sort', 'fill', 'resize', 'append', 'extend', 'update', 'clear', 'pop', 'itemset', 'put'):
+          mut = mut or x
+      ctx.check(mut is None, 'R13', f'{fi.qualname}: memoised value used read-only', fi.node, 'no in-place operation on the cached object',
+                f'`{unparse(mut, 60) if mut is not None else ""}` changes in place an object that a memoised function hands out: the cache now holds the modified '
+                'object, so every later evaluation (of this and of every other function sharing the cached value) computes with a different value',
+                construct=f'{fi.name}:cached-value-mutated', func=fi.qualname)
+  ctx.count('functions_using_memoised_values', n)
 
 
 def r12_no_broken_swap(ctx, subs: List[ClassInfo]) -> None:
